@@ -20,7 +20,7 @@ def run(cmd, cwd=None, env=None, timeout=1800):
 
 def main():
     args = sys.argv[1:]
-    mdir, prop, pkg = args[0], args[1], args[2]
+    mdir, prop, pkg = os.path.abspath(args[0]), args[1], args[2]
     checks = [prop]
     suite = True
     tier = "quick"
@@ -43,11 +43,16 @@ def main():
             res["error"] = "worktree: " + out; return res
         patch = os.path.join(mdir, "patch.diff")
         # demonstration on the unchanged tree
-        demo_src = os.path.join(mdir, "demo_test.go")
-        is_main = False
-        if not os.path.exists(demo_src):
-            demo_src = os.path.join(mdir, "main.go"); is_main = True
+        demo_src, is_main = None, False
+        for name, ismain in (("demo_test.go", False), ("demo_test.go.txt", False), ("main.go", True), ("demo_main.go.txt", True)):
+            if os.path.exists(os.path.join(mdir, name)):
+                demo_src, is_main = os.path.join(mdir, name), ismain
+                break
+        if "--no-demo" in args:
+            demo_src = None
         def run_demo():
+            if demo_src is None:
+                return 0, "(demo skipped)"
             if is_main:
                 d = os.path.join(wt, "zz_demo_main")
                 os.makedirs(d, exist_ok=True)
